@@ -260,7 +260,7 @@ def native_sections(repo, tier):
     return {"obligations": obls, "undecided": und}
 
 
-DOC_FORMATS = ("pdf", "pptx", "odp", "epub", "rtf", "xlsx", "ods", "eml", "mbox", "ppt")
+DOC_FORMATS = ("pdf", "pptx", "odp", "epub", "rtf", "xlsx", "ods", "eml", "mbox", "ppt", "txt", "html")
 
 
 def documents_oid(fmt):
@@ -283,11 +283,12 @@ def native_documents(repo, tier):
     bounds = {"pdf": "1..3 pages, blank / one text token each, any subset of pages unreadable",
               "pptx": "0..3 slides x {text, empty, hidden}; 1..2 slides x 1..3 shapes over {title, ctrTitle, body, subTitle, text box}; parts stored in reverse order",
               "odp": "0..3 slides x {text, empty}; 1..2 slides x 1..3 paragraphs over {Title, TitleText, BodyText, other style, no style}",
-              "epub": "0..3 spine items x {text, empty, missing from the manifest}, linear=no items", "rtf": "1..3 pages over {text, empty, blank, Unicode runs, hex escapes}",
+              "epub": "0..3 spine items x {text, empty, missing from the manifest}, linear=no items; 1..2 chapters x 2..3 blocks over {h1, p, li}",
+              "txt": "0..3 paragraphs", "html": "0..3 paragraphs (p / div)", "rtf": "1..3 pages over {text, empty, blank, Unicode runs, hex escapes}",
               "xlsx": "1..3 sheets x {data, empty}, names not sorted", "ods": "1..3 sheets x {data, empty}, names not sorted",
               "eml": "1..3 inline text parts over {plain, html}, multipart/mixed and /alternative",
               "mbox": "1..3 messages x {body, empty, two lines}, padded / unpadded, LF / CRLF, header-only; 1..3 inline text parts per message",
-              "ppt": "record streams: 0..2 slides x {no text, 1, 2 text atoms} x {loose text atom}; fixture slide_with_notes.ppt"}
+              "ppt": "record streams: 0..2 slides x {no text, 1, 2 text atoms} x {loose text atom}; 1..3 slides x 1..3 text atoms (token coverage); fixture slide_with_notes.ppt"}
     for fmt in DOC_FORMATS:
         r = res["results"].get(fmt)
         oid = documents_oid(fmt)
